@@ -72,7 +72,7 @@ func pattern(holder uint64, n int) []byte {
 }
 
 func checkC41(c *vk.Ctx) {
-	c.Rule = "16-64 goroutines run get / write 0..4*max bytes (private pattern = holder id x offset) / re-read with yields / put cycles on NewBuffer(0), NewBuffer(64|256|4096) and the package-level pool, with runtime.GC() interleaved (sync.Pool eviction) and some buffers put twice-sized: " +
+	c.Rule = "16-64 goroutines run get / write 0..4*max bytes (private pattern = holder id x offset) / re-read with yields / put cycles (in 30% of them holding two buffers at once) on NewBuffer(0), NewBuffer(64|256|4096) and the package-level pool, with runtime.GC() interleaved (sync.Pool eviction) and some buffers put twice-sized: " +
 		"every Get must return an empty buffer that no other user currently holds (monitor's held-set keyed by pointer), whose private pattern is intact at Put, and a capped pool never returns capacity > max. " +
 		"Second part: the pool's real users - 16 goroutines encode generated packets of every type with the broker's encoder concurrently (pooled scratch buffers) and each result must equal the bytes of a sequential encoding. nontrivial = pool configurations in which buffers were observed being recycled"
 	c.Assumptions = []string{"sync.Pool itself is trusted; what is monitored is how mempool and its callers use it"}
@@ -129,6 +129,31 @@ func checkC41(c *vk.Ctx) {
 						if firstViol.CompareAndSwap(false, true) {
 							c.Violate("C41/buffer-shared", map[string]string{"pool": cf.name, "symptom": "content-altered"}, fmt.Sprintf("holder %x: the %d bytes it wrote to its buffer were altered before Put", holder, n), map[string]any{"pool": cf.name, "iteration": i})
 						}
+					}
+					if r.Chance(30) {
+						// hold a second buffer for a moment: two Puts in a row push one of them out of the pool's
+						// per-processor slot to where other goroutines take it from
+						h2 := holder | 1<<63
+						b2, rule2, bad2 := m.get(pool, h2)
+						if bad2 != "" {
+							if firstViol.CompareAndSwap(false, true) {
+								c.Violate(rule2, map[string]string{"pool": cf.name}, bad2, map[string]any{"pool": cf.name, "goroutines": workers, "iteration": i, "seed": c.Seed})
+							}
+							m.held.Delete(b2)
+							b2.Reset()
+						}
+						p2 := pattern(h2, 1+r.Intn(lim/2+1))
+						b2.Write(p2)
+						if r.Chance(30) {
+							runtime.Gosched()
+						}
+						if !bytes.Equal(b2.Bytes(), p2) || !bytes.Equal(b.Bytes(), pat) {
+							m.corrupted.Add(1)
+							if firstViol.CompareAndSwap(false, true) {
+								c.Violate("C41/buffer-shared", map[string]string{"pool": cf.name, "symptom": "content-altered"}, fmt.Sprintf("holder %x: what it wrote to one of its two buffers was altered before Put", holder), map[string]any{"pool": cf.name, "iteration": i})
+							}
+						}
+						m.put(pool, b2)
 					}
 					m.put(pool, b)
 					if g == 0 && i%5000 == 4999 {
